@@ -100,6 +100,23 @@ def run_case(case: dict) -> dict:
     hist = case["hist"]
     fmt, comp = hist["fmt"], hist["comp"]
     rng = random.Random(case["oseed"])
+    # half of the cases run with INFO logging enabled for the library (a legitimate application setting that
+    # makes the selection routine evaluate its log arguments)
+    import logging
+    verbose = case["oseed"] % 2 == 0
+    loggers = [logging.getLogger("sedpack"), logging.getLogger("sedpack.io.Dataset")]
+    previous = [lg.level for lg in loggers]
+    for lg in loggers:
+        lg.setLevel(logging.INFO if verbose else logging.WARNING)
+    try:
+        return _run_case(case, rng, hist, fmt, comp, verbose)
+    finally:
+        for lg, level in zip(loggers, previous):
+            lg.setLevel(level)
+
+
+def _run_case(case: dict, rng, hist: dict, fmt: str, comp: str, verbose: bool) -> dict:
+    from sedpack.io import Dataset
     work = common.new_workdir("c12")
     violations: list[dict] = []
     obs: Counter = Counter()
@@ -208,6 +225,7 @@ def run_case(case: dict) -> dict:
             check("combined:" + "+".join(sorted(options)), options, chosen, len(chosen) < total,
                   combined=bool(chosen))
         obs["shards_in_dataset"] = total
+        obs["cases_with_info_logging"] = int(verbose)
         return {"sigs": sigs, "sig": None, "nontrivial": bool(sigs), "violations": violations, "obs": dict(obs),
                 "sample": {"fmt": fmt, "shards": total, "groups": dict(groups), "interfaces": ifaces}}
     finally:
